@@ -438,6 +438,40 @@ func costFamilies(rng *rand.Rand, n int) []struct {
 				return b
 			}())},
 		}
+		// ... and the remaining containers of repeated children: 4RD mapping rules, delegated prefixes, temporary
+		// addresses, boot-file parameters, architectures, DHCPv4-over-DHCPv6 servers, NTP multicast addresses and names
+		rep := func(room int, item func(k int) []byte) []byte {
+			var b []byte
+			for k := 1; ; k++ {
+				it := item(k)
+				if len(b)+len(it) > room {
+					return b
+				}
+				b = append(b, it...)
+			}
+		}
+		v6addr := func(k int) []byte { return []byte{0x20, 1, 0xd, 0xb8, 0, 0, 0, 0, 0, 0, 0, 0, 0, 0, byte(k >> 8), byte(k)} }
+		lists = append(lists, []struct {
+			name string
+			body []byte
+		}{
+			{"4rd-maprules", tlv6(97, rep(room, func(k int) []byte {
+				return tlv6(98, append([]byte{24, 64, 8, 0, 10, byte(k >> 8), byte(k), 0}, v6addr(k)...))
+			}))},
+			{"iapd-prefixes", tlv6(25, append(make([]byte, 12), rep(room-12, func(k int) []byte {
+				return tlv6(26, append([]byte{0, 0, 14, 16, 0, 0, 28, 32, 64}, v6addr(k)...))
+			})...))},
+			{"iata-addresses", tlv6(4, append(make([]byte, 4), rep(room-4, func(k int) []byte {
+				return tlv6(5, append(v6addr(k), 0, 0, 14, 16, 0, 0, 28, 32))
+			})...))},
+			{"bootfileparams", tlv6(60, rep(room, func(k int) []byte { return []byte{0, 2, byte('a' + k%26), byte('a' + (k/26)%26)} }))},
+			{"archtypes", tlv6(61, u16s(room))},
+			{"4o6servers", tlv6(88, ips(room))},
+			{"ntp-mcaddrs", tlv6(56, rep(room, func(k int) []byte { return tlv6(2, v6addr(k)) }))},
+			{"ntp-fqdns", tlv6(56, rep(room, func(k int) []byte { return tlv6(3, []byte{2, byte('a' + k%26), byte('a' + (k/26)%26), 3, 'c', 'o', 'm', 0}) }))},
+			{"statuscodes", rep(room, func(k int) []byte { return tlv6(13, []byte{0, byte(k % 7), 'o', 'k'}) })},
+			{"ianas", rep(room, func(k int) []byte { return tlv6(3, []byte{0, 0, byte(k >> 8), byte(k), 0, 0, 0, 1, 0, 0, 0, 2}) })},
+		}...)
 		for _, l := range lists {
 			out = append(out, fam{"v6-big-list-" + l.name, "v6", append(append([]byte{}, hdr6...), l.body...), 2})
 		}
